@@ -148,6 +148,33 @@ pub fn generate(family: &str, seed: u64, tier: &str) -> Vec<String> {
                 }
             }
         }
+        // C18 on a build without the charsets feature: text() is the lossy UTF-8 reading of the octets whatever the
+        // Content-Type says (documented: "the same as calling text_utf8")
+        "x_text_min" => {
+            let bodies: Vec<Vec<u8>> = vec![
+                b"plain ascii".to_vec(), "Gr\u{fc}\u{df}e \u{2014} \u{20ac} \u{65e5}\u{672c}".as_bytes().to_vec(), vec![b'c', b'a', b'f', 0xE9], vec![0xE2, 0x82], vec![0xF0, 0x9F, 0x98],
+                vec![0xFF, 0xFE, b'a', 0], vec![0xEF, 0xBB, 0xBF, b'b', b'o', b'm'], vec![], (0..=255u8).collect(), "\u{65e5}\u{672c}\u{8a9e}".repeat(3000).into_bytes(),
+            ];
+            let cts = ["text/plain; charset=ISO-8859-1", "text/html; charset=Shift_JIS", "text/plain; charset=utf-8", "text/plain", "application/json; charset=UTF-16LE", ""];
+            let mut i = 0;
+            for b in &bodies {
+                for ct in cts {
+                    for framing in ["length", "chunked", "close"] {
+                        for op in ["text", "text_utf8"] {
+                            let want = String::from_utf8_lossy(b).to_string();
+                            let mut sc = json!({"id":format!("xt-{}", i),"payload_hex":hex(b),"plen":b.len(),"body":{"kind":framing,"chunkpat":[7, 1]},
+                                "steps":[["send"],[op]],"text_ref":want});
+                            if !ct.is_empty() {
+                                sc["hdrs"] = json!([["Content-Type", ct]]);
+                            }
+                            if i % 3 == 0 { sc["segs"] = json!(vec![1; 64]); } else if i % 3 == 1 { sc["pre"] = json!(1_000_000); } else { sc["segs"] = json!([b.len() / 2 + 20, 3]); }
+                            out.push(sc);
+                            i += 1;
+                        }
+                    }
+                }
+            }
+        }
         // C04: every status code x the status helpers (is_success / error_for_status / split)
         "x_status" => {
             for code in 100..1000usize {
